@@ -87,10 +87,11 @@ def load_sym(name, real_numpy=False):
     import re
     for dep in DEPS[name]:
         dm = load_sym(dep, real_numpy)
-        for mm in re.finditer(r'from\s+[\.\w]*' + dep + r'\s+import\s+([\w, ]+)\s+# cimport', py):
+        pat = r'^from\s+\.+\w*\.?' + dep + r'\s+import\s+([\w, ]+?)\s*(#.*)?$'
+        for mm in re.finditer(pat, py, flags=re.M):
             for fn in mm.group(1).split(','):
                 m.__dict__[fn.strip()] = getattr(dm, fn.strip())
-        py = re.sub(r'from\s+[\.\w]*' + dep + r'\s+import\s+[\w, ]+\s+# cimport', 'pass', py)
+        py = re.sub(pat, 'pass', py, flags=re.M)
     py = re.sub(r'^from \.\.?\S* import .*$', lambda mo: _absimport(name, mo.group(0)), py, flags=re.M)
     exec(compile(py, os.path.join(REPO, SRC[name]) + '<translated>', 'exec'), m.__dict__)
     if not real_numpy:
